@@ -3,3 +3,4 @@ import Model.Core
 import Model.Codec
 import Model.Spec.C01
 import Model.Spec.C05
+import Model.Async
